@@ -7,10 +7,10 @@ From Coq Require Import List Arith Bool.
 Import ListNotations.
 From YV Require Import gen.Gen_ready_c13 model.Await.
 
-Fixpoint run_at (rr : bool) (s : st) (tr : list ev) (i : nat) : nat + st :=
+Fixpoint run_at (rr sw : bool) (s : st) (tr : list ev) (i : nat) : nat + st :=
   match tr with
   | [] => inr s
-  | e :: r => match step_g rr s e with Some s' => run_at rr s' r (S i) | None => inl i end
+  | e :: r => match step_g rr sw s e with Some s' => run_at rr sw s' r (S i) | None => inl i end
   end.
 
 Definition encb (b : bool) : nat := if b then 1 else 0.
@@ -32,12 +32,12 @@ Definition enc_co (s : st) (co : coro) : list nat :=
   [length (resumes co)] ++ flat_map enc_rrec (resumes co) ++
   [length (readys co)] ++ map (fun p => 2 * encb (fst p) + encb (snd p)) (readys co).
 
-Definition obs_nat_g (rr : bool) (os : list ospec) (cs : list cspec) (nx : nat) (tr : list ev) : list nat :=
-  match run_at rr (init os cs nx) tr 0 with
+Definition obs_nat_g (rr sw : bool) (os : list ospec) (cs : list cspec) (nx : nat) (tr : list ev) : list nat :=
+  match run_at rr sw (init os cs nx) tr 0 with
   | inl i => [0; i]
   | inr s => [1; encb (quiescent s); length (cos s)] ++ flat_map (enc_co s) (cos s)
   end.
-Definition obs_nat := obs_nat_g c13_ready_is_result.
+Definition obs_nat := obs_nat_g c13_ready_is_result c13_impl_swaps_executor.
 
 (* short constructors for the checker *)
 Definition OX (sh lz : bool) (x : nat) : ospec := {| s_shared := sh; s_lazy := lz; s_exec := x; s_prod := None |}.
